@@ -492,7 +492,7 @@ UNITS.append(Unit("C15", "jsonargparse._link_arguments:ActionLink.__init__", li_
 # missing value); every source is re-checked by its own action before it is read; a namespace is handed over as a dict exactly when the
 # receiving side (the target's type, or the compute function's parameter) is a mapping
 def ap2_setup(ctx):
-    scen = ["class-source-missing", "class-source-present", "class-source-present-with-value-None", "namespace-to-mapping-target", "namespace-to-plain-target", "namespace-to-init_arg-mapping", "fn-with-mapping-parameter", "fn-with-plain-parameter"][ctx.choose(8, "scenario")]
+    scen = ["class-source-missing", "class-source-present", "class-source-present-with-value-None", "namespace-to-mapping-target", "namespace-to-plain-target", "namespace-to-init_arg-mapping", "fn-with-mapping-parameter", "fn-with-plain-parameter", "fn-with-two-sources(plain declared first,class-typed second)"][ctx.choose(9, "scenario")]
     ctx.classes.add("Namespace", ["object"])
     ctx.classes.add("ActionTypeHint", ["Action"])
     as_dict = Rec("dict from as_dict")
@@ -500,7 +500,14 @@ def ap2_setup(ctx):
     plain = z3.Int("source value")
     src_action = Rec("ActionTypeHint", attrs={"dest": "src", "class_typed": scen.startswith("class-source")})
     store = {}
-    if scen == "class-source-present-with-value-None":
+    two = scen.startswith("fn-with-two-sources")
+    second_action = Rec("ActionTypeHint", attrs={"dest": "model", "class_typed": True})
+    second_val = z3.Int("second source value")
+    if two:
+        store["src"] = plain
+        store["model.init_args.width"] = second_val
+        store["model"] = Rec("Namespace", attrs={"tag": "model spec"})
+    elif scen == "class-source-present-with-value-None":
         store["src"] = None
     elif scen != "class-source-missing":
         store["src"] = ns_val if scen.startswith(("namespace", "fn")) else plain
@@ -508,7 +515,7 @@ def ap2_setup(ctx):
                         methods={"is_mapping_typehint": lambda c, s_, a, k: s_.attrs["mapping"], "is_init_arg_mapping_typehint": lambda c, s_, a, k: (c.event("init-arg-mapping?", a[0], a[1]), scen == "namespace-to-init_arg-mapping")[1]})
     computed = Rec("computed")
     has_fn = scen.startswith("fn")
-    link = Rec("ActionLink", attrs={"source": [("src", [src_action])], "target": ("tgt" if scen != "namespace-to-init_arg-mapping" else "m.init_args.d", target_action), "compute_fn": Rec("fn") if has_fn else None,
+    link = Rec("ActionLink", attrs={"source": [("src", [src_action])] + ([("model.init_args.width", [second_action])] if two else []), "target": ("tgt" if scen != "namespace-to-init_arg-mapping" else "m.init_args.d", target_action), "compute_fn": Rec("fn") if has_fn else None,
                                     "option_strings": ["--l"], "apply_on": "parse"}, methods={"call_compute_fn": lambda c, s_, a, k: (c.event("compute", list(a[0])), computed)[1]})
     cfg = Rec("Namespace", methods={"__contains__": lambda c, s_, a, k: a[0] in store, "__getitem__": lambda c, s_, a, k: store[a[0]], "get": lambda c, s_, a, k: store.get(a[0], a[1] if len(a) > 1 else None)})
     parser = Rec("ArgumentParser", attrs={"_links_group": Rec("g"), "logger": Rec("Logger", methods={"debug": lambda c, s_, a, k: c.event("logged")})},
@@ -524,7 +531,7 @@ def ap2_setup(ctx):
         "ActionLink.set_target_value": lambda c, a, k: c.event("set-target", a[0], a[1], a[2], a[3]),
     }
     return Setup(env={"parser": parser, "cfg": cfg}, calls=calls, consts={"Namespace": ClassRef("Namespace"), "ActionTypeHint": ClassRef("ActionTypeHint")},
-                 data=dict(scen=scen, link=link, ns_val=ns_val, plain=plain, as_dict=as_dict, computed=computed, parser=parser, cfg=cfg, src_action=src_action, store=store))
+                 data=dict(scen=scen, link=link, ns_val=ns_val, plain=plain, as_dict=as_dict, computed=computed, parser=parser, cfg=cfg, src_action=src_action, store=store, two=two, second_val=second_val, second_action=second_action))
 
 
 def ap2_post(ctx, st, result):
@@ -538,6 +545,12 @@ def ap2_post(ctx, st, result):
         ctx.oblige("post", "a-link-whose-class-typed-source-is-not-in-the-configuration-is-not-applied(nothing is read from a missing key)" + tag, not sets and not [e for e in ev if e[0] in ("check-source", "compute")])
         return
     ck = [e for e in ev if e[0] == "check-source"]
+    if d["two"]:
+        cp = [e for e in ev if e[0] == "compute"]
+        ctx.oblige("post", "the-function-receives-the-values-of-the-sources-in-the-order-in-which-the-link-declares-them(whatever their types)" + tag,
+                   len(cp) == 1 and len(cp[0][1]) == 2 and cp[0][1][0] is d["plain"] and cp[0][1][1] is d["second_val"])
+        ctx.oblige("post", "the-target-is-set-once-to-what-the-function-computes" + tag, len(sets) == 1 and sets[0][2] is d["computed"])
+        return
     ctx.oblige("post", "the-source-is-re-checked-by-its-own-action,on-its-own-value,before-it-is-read" + tag, len(ck) == 1 and ck[0][1] is d["src_action"] and ck[0][2] is d["store"]["src"] and ck[0][3] == "src" and ck[0][4] is None)
     want = {"class-source-present": d["plain"], "class-source-present-with-value-None": None, "namespace-to-mapping-target": d["as_dict"], "namespace-to-plain-target": d["ns_val"], "namespace-to-init_arg-mapping": d["as_dict"],
             "fn-with-mapping-parameter": d["computed"], "fn-with-plain-parameter": d["computed"]}[d["scen"]]
